@@ -51,6 +51,14 @@ def instrument_hl7apy():
             f = getattr(m, fn, None)
             if f is not None:
                 K.mark_touch({f.__code__})
+    # every function of the two modules that own process-wide state is a touch point, so that
+    # functions added there later (caches, memos) are biased too without being listed by name
+    for modname in ('hl7apy', 'hl7apy.factories'):
+        codes = K.code_objects_of(importlib.import_module(modname), EXCLUDE)
+        K.mark_touch(codes)
+        K.mark_strong(codes)
+    for v in sorted(hl7apy.SUPPORTED_LIBRARIES.values()):
+        K.mark_strong(K.code_objects_of(importlib.import_module(v), EXCLUDE))
     for modname, names in TOUCH.items():
         m = importlib.import_module(modname)
         for qual in names:
